@@ -66,11 +66,18 @@ def _unary_work(payload):
     fails = []
     cnt = 0
     hist = core.History(to_case=lambda gs: {"kind": "unary", "n": n, "gens": M.gens_str(gs, n)})
+    kept = None          # an expansion obtained earlier, and what it looked like then: later calls must not change it
     for i in idxs:
         for gens in M.presentations(g.gens(int(i), int(i) % (1 << n)), radius):
             cnt += 1
             try:
                 msgs = judge_unary(gens, n)
+                if kept is not None and not (np.array_equal(kept[0][0], kept[1][0]) and np.array_equal(kept[0][1], kept[1][1])):
+                    msgs.append("the arrays returned by an earlier expand() call (for %s) changed when expand() was called for another stabilizer" % (kept[2],))
+                    kept = None
+                if kept is None or cnt % 7 == 0:
+                    res = lib_stab(gens, n).expand()
+                    kept = (res, (np.array(res[0], copy=True), np.array(res[1], copy=True)), M.gens_str(gens, n))
             except Exception as ex:     # noqa: BLE001
                 msgs = ["raised %s: %s" % (type(ex).__name__, ex)]
             if msgs:
